@@ -366,6 +366,15 @@ Section SEM.
     | VNull :: _ => Some VNull
     | _ => None
     end.
+  (* the same sum when the terms are NOT converted: bitShiftLeft keeps the type of its first argument, a comparison (or an
+     and/or of comparisons) is UInt8, so bits shifted past position 7 are lost; UInt8 + UInt8 is promoted (no wrap-around) *)
+  Fixpoint bitset_sum8 (l : list value) (i : Z) (acc : Z) : option value :=
+    match l with
+    | [] => Some (VInt acc)
+    | VInt b :: l' => bitset_sum8 l' (i + 1)%Z (acc + (if (i <? 8)%Z then Z.modulo (Z.shiftl (Z.modulo b 256) i) 256 else 0))%Z
+    | VNull :: _ => Some VNull
+    | _ => None
+    end.
   (* groupBitOr over the non-NULL values of a group *)
   Fixpoint bitor_fold (l : list value) (acc : Z) : option value :=
     match l with
@@ -393,7 +402,7 @@ Section SEM.
       | Col x _ | Ord x _ | Distinct x | MatchRe x _ => has_agg f x
       | BitAnd a b | Bin _ a b | EqBare a b => has_agg f a || has_agg f b
       | InE l rs => has_agg f l || existsb (has_agg f) rs
-      | Tuple l | BitSet l => existsb (has_agg f) l
+      | Tuple l | BitSet l | BitSet8 l => existsb (has_agg f) l
       | _ => false
       end
     end.
@@ -490,6 +499,11 @@ Section SEM.
             | None => None
             | Some vs =>
               bitset_sum vs 0%Z 0%Z
+            end
+        | BitSet8 terms =>
+            match all_some (map sub terms) with
+            | None => None
+            | Some vs => bitset_sum8 vs 0%Z 0%Z
             end
         | BitAnd a b =>
             match sub a, sub b with
